@@ -1,4 +1,225 @@
+(* C05 — the property theorems.  Part A (this file): crash recovery of the commit pipeline, for
+   EVERY list of operations (block decisions, persistence steps, crashes at any step — also
+   during the handshake —, restarts, and restores of the application to one of its own earlier
+   commits) and every deterministic application.  Part B (mempool lock clause) is restated at the
+   end from C05/MemProofs.v.
+
+   Reading guide: [reach A ops] is the world after running [ops] from the empty node;
+   [a_journal (w_app w)] is the list of calls the application received on its consensus
+   connection (plus the markers JCrash / JRollback k);  [reported_height j 0] is the height the
+   application reports (Info) after journal j: that of its last Commit or restore. *)
 From Coq Require Import List ZArith NArith Bool.
 From TM Require Import C05.Model C05.Proofs.
-Theorem C05_placeholder : True. Proof. exact I. Qed.
-Print Assumptions C05_placeholder.
+Import ListNotations.
+Open Scope Z_scope.
+
+(* --- journal_shape, clause by clause ------------------------------------------------------ *)
+
+(* The journal is accepted by the monitor automaton [journal_ok] (Model.v) that the harness also
+   runs on the real application's journal. *)
+Theorem C05_journal_shape : forall A ops,
+  journal_ok (w_store (reach A ops)) (a_journal (w_app (reach A ops))) = true.
+Proof. exact journal_accepted. Qed.
+Print Assumptions C05_journal_shape.
+
+(* InitChain is sent only while the application reports that it has committed no block. *)
+Theorem C05_initchain_only_at_height_0 : forall A ops j1 j2,
+  a_journal (w_app (reach A ops)) = j1 ++ JInit :: j2 -> reported_height j1 0 = 0.
+Proof. exact initchain_only_at_zero. Qed.
+Print Assumptions C05_initchain_only_at_height_0.
+
+(* no_replay_of_committed + no_gap: a block is begun only at the height following the one the
+   application reports — a block it has committed is never executed on it again, none is skipped. *)
+Theorem C05_no_replay_no_gap : forall A ops j1 h j2,
+  a_journal (w_app (reach A ops)) = j1 ++ JBegin h :: j2 -> h = reported_height j1 0 + 1.
+Proof. exact begin_is_next_height. Qed.
+Print Assumptions C05_no_replay_no_gap.
+
+(* EndBlock h comes right after BeginBlock h and exactly the transactions of the stored block h,
+   in block order. *)
+Theorem C05_block_txs_in_order : forall A ops j1 h j2,
+  a_journal (w_app (reach A ops)) = j1 ++ JEnd h :: j2 ->
+  exists j0 b, j1 = j0 ++ JBegin h :: map JDeliver (b_txs b) /\
+               load_block (w_store (reach A ops)) h = Some b.
+Proof. exact end_follows_txs. Qed.
+Print Assumptions C05_block_txs_in_order.
+
+(* Commit h comes right after a complete BeginBlock h, DeliverTx*, EndBlock h of the stored block. *)
+Theorem C05_commit_follows_whole_block : forall A ops j1 h j2,
+  a_journal (w_app (reach A ops)) = j1 ++ JCommit h :: j2 ->
+  exists j0 b, j1 = j0 ++ JBegin h :: map JDeliver (b_txs b) ++ [JEnd h] /\
+               load_block (w_store (reach A ops)) h = Some b.
+Proof. exact commit_follows_block. Qed.
+Print Assumptions C05_commit_follows_whole_block.
+
+(* --- recovery ------------------------------------------------------------------------------ *)
+
+(* recovery_agrees: whenever the node is up between heights (after a completed restart or a
+   completed commit) block store, saved state and application agree on the height and the app
+   hash; moreover the saved state is the one of a node that applied the stored blocks without
+   ever crashing, and the application has no uncommitted execution left. *)
+Theorem C05_recovery_agrees : forall A ops, w_pc (reach A ops) = PIdle ->
+  let w := reach A ops in
+  store_height (w_store w) = s_height (w_state w) /\
+  s_height (w_state w) = a_height (w_app w) /\
+  s_apphash (w_state w) = enc (a_acc (w_app w)) /\
+  w_state w = ref_state A (w_store w) (length (w_store w)) /\
+  a_work (w_app w) = a_acc (w_app w).
+Proof. exact recovery_agrees. Qed.
+Print Assumptions C05_recovery_agrees.
+
+(* at EVERY moment (mid-procedure, right after a crash): state <= store <= state+1,
+   app <= store, every #ENDHEIGHT marker is for a stored block; the saved state and the
+   application's committed state are those of crash-free executions of a prefix of the store. *)
+Theorem C05_cursors_within_one : forall A ops,
+  let w := reach A ops in
+  s_height (w_state w) <= store_height (w_store w) <= s_height (w_state w) + 1 /\
+  0 <= a_height (w_app w) <= store_height (w_store w) /\
+  Forall (fun h => h <= store_height (w_store w)) (w_wal w).
+Proof. exact cursors. Qed.
+Print Assumptions C05_cursors_within_one.
+
+(* unless the application is restored to an older commit of its own, it is never behind the saved
+   state: together with the previous theorem the three cursors differ by at most one *)
+Theorem C05_app_not_behind_state : forall A ops,
+  (forall o, In o ops -> is_rollback o = false) ->
+  s_height (w_state (reach A ops)) <= a_height (w_app (reach A ops)).
+Proof. exact app_not_behind_state. Qed.
+Print Assumptions C05_app_not_behind_state.
+
+Theorem C05_saved_state_is_crash_free : forall A ops,
+  let w := reach A ops in
+  w_state w = genesis_state \/
+  exists n, (n <= length (w_store w))%nat /\ w_state w = ref_state A (w_store w) n.
+Proof. exact saved_state_is_crash_free. Qed.
+Print Assumptions C05_saved_state_is_crash_free.
+
+Theorem C05_app_state_is_crash_free : forall A ops,
+  let w := reach A ops in
+  exists n, a_height (w_app w) = Z.of_nat n /\ (n <= length (w_store w))%nat /\
+            a_acc (w_app w) = racc A (w_store w) n.
+Proof. exact app_state_is_crash_free. Qed.
+Print Assumptions C05_app_state_is_crash_free.
+
+(* handshake_total, safety half: no reachable world is a failure — none of the error returns
+   and panics of Handshake/ReplayBlocks/replayBlocks/ApplyBlock (app hash asserts, heights out
+   of range, missing ABCI responses, "uncovered case") is ever hit. *)
+Theorem C05_never_fails : forall A ops c, w_pc (reach A ops) <> PFailed c.
+Proof. exact never_fails. Qed.
+Print Assumptions C05_never_fails.
+
+(* handshake_total, liveness half: from every reachable crashed world the handshake, left alone,
+   terminates with the node up (hence, by C05_recovery_agrees, in agreement). *)
+Theorem C05_handshake_total : forall A ops, is_down (w_pc (reach A ops)) = true ->
+  exists k, w_pc (run A (MRestart :: repeat MStep k) (reach A ops)) = PIdle.
+Proof. exact handshake_total. Qed.
+Print Assumptions C05_handshake_total.
+
+(* recovery_progress: whenever the node is up, the next decided block is committed: the
+   procedure terminates with the node up and the block appended to the store. *)
+Theorem C05_recovery_progress : forall A ops txs, w_pc (reach A ops) = PIdle ->
+  exists k, let w' := run A (MCommit txs :: repeat MStep k) (reach A ops) in
+    w_pc w' = PIdle /\
+    w_store w' = w_store (reach A ops) ++ [make_block (w_state (reach A ops)) txs].
+Proof. exact recovery_progress. Qed.
+Print Assumptions C05_recovery_progress.
+
+(* --- non-vacuity ---------------------------------------------------------------------------- *)
+
+Definition eapp : appsem :=
+  {| ainit := 7%N; abegin := fun a h => (a + Z.to_N h)%N; adeliver := fun a t => ((a + t)%N, (t mod 2)%N) |}.
+Definition boot := MRestart :: repeat MStep 2.
+Definition full (txs : list N) := MCommit txs :: repeat MStep (7 + length txs).
+
+(* crash after the application committed block 2 but before the state was saved: the restart
+   finishes block 2 from the saved responses (mock application), the real application is not
+   called again, then block 3 is committed *)
+Definition ops1 := boot ++ full [5%N; 6%N] ++ [MCommit [1%N]] ++ repeat MStep 7 ++ [MCrash; MRestart]
+                   ++ repeat MStep 2 ++ full [].
+Example C05_journal_nonvacuous :
+  w_pc (reach eapp ops1) = PIdle /\
+  a_journal (w_app (reach eapp ops1)) =
+    [JInit; JBegin 1; JDeliver 5%N; JDeliver 6%N; JEnd 1; JCommit 1;
+     JBegin 2; JDeliver 1%N; JEnd 2; JCommit 2; JCrash; JBegin 3; JEnd 3; JCommit 3] /\
+  w_state (reach eapp ops1) = {| s_height := 3; s_apphash := 25; s_lastres := [] |}.
+Proof. vm_compute. auto. Qed.
+
+(* two crashes (one during the handshake's replay), then the application comes back empty:
+   InitChain again (it reports height 0) and both blocks are replayed, each once per life *)
+Definition ops2 := boot ++ full [5%N; 6%N] ++ [MCommit [1%N]] ++ repeat MStep 4
+                   ++ [MCrash; MRestart; MStep; MStep; MCrash; MRollback 0; MRestart] ++ repeat MStep 30.
+Example C05_recovery_nonvacuous :
+  w_pc (reach eapp ops2) = PIdle /\ store_height (w_store (reach eapp ops2)) = 2 /\
+  a_journal (w_app (reach eapp ops2)) =
+    [JInit; JBegin 1; JDeliver 5%N; JDeliver 6%N; JEnd 1; JCommit 1; JBegin 2; JDeliver 1%N; JCrash;
+     JBegin 2; JDeliver 1%N; JCrash; JRollback 0; JInit; JBegin 1; JDeliver 5%N; JDeliver 6%N; JEnd 1;
+     JCommit 1; JBegin 2; JDeliver 1%N; JEnd 2; JCommit 2].
+Proof. vm_compute. auto. Qed.
+
+(* a crashed world whose three cursors all differ: store 2, state 1, app 2 *)
+Example C05_handshake_nonvacuous :
+  let w := reach eapp (boot ++ full [5%N; 6%N] ++ [MCommit [1%N]] ++ repeat MStep 7 ++ [MCrash]) in
+  is_down (w_pc w) = true /\ store_height (w_store w) = 2 /\ s_height (w_state w) = 1 /\ a_height (w_app w) = 2.
+Proof. vm_compute. auto. Qed.
+
+Example C05_split_nonvacuous :
+  exists j1 j2, a_journal (w_app (reach eapp ops2)) = j1 ++ JInit :: j2 /\ j1 <> [].
+Proof.
+  exists [JInit; JBegin 1; JDeliver 5%N; JDeliver 6%N; JEnd 1; JCommit 1; JBegin 2; JDeliver 1%N; JCrash;
+          JBegin 2; JDeliver 1%N; JCrash; JRollback 0].
+  eexists. split; [vm_compute; reflexivity|discriminate].
+Qed.
+
+(* ============================================================================================
+   Part B — the mempool lock clause (model C05/MemModel.v, proofs C05/MemProofs.v): for EVERY
+   schedule of k submitter threads, the consensus thread's Commit rounds and the application
+   serving the FIFO mempool connection.  V0 = mempool/v0 (CListMempool), V1 = mempool/v1. *)
+From TM Require C05.MemModel C05.MemProofs.
+Module MemPart.
+Import TM.C05.MemModel TM.C05.MemProofs.
+
+(* v0: while the consensus thread is between "FlushSync returned" (CommitSync is the next call)
+   and the deferred Unlock after "Update returned", no New-CheckTx request is pending on the
+   mempool connection and no step of any thread issues one. *)
+Theorem C05_mem_no_new_checktx_during_commit :
+  forall (rc : bool) (k : nat) (sched : list ev),
+    let s := run V0 rc sched (init k) in
+    in_window (cp s) = true ->
+    no_new (q s) = true /\ forall i t, step V0 rc s (EIssueNew i t) = None.
+Proof. exact no_new_checktx_during_commit. Qed.
+Print Assumptions C05_mem_no_new_checktx_during_commit.
+
+(* v0: nothing is issued by a submitter from Lock() to Unlock(). *)
+Theorem C05_mem_no_issue_while_locked :
+  forall (rc : bool) (k : nat) (sched : list ev),
+    let s := run V0 rc sched (init k) in
+    cp s <> CIdle -> forall i t, step V0 rc s (EIssueNew i t) = None.
+Proof. exact no_issue_while_locked. Qed.
+Print Assumptions C05_mem_no_issue_while_locked.
+
+(* v0: the monitors run on the recorded traces of the Go code accept the trace of every schedule. *)
+Theorem C05_mem_monitor_holds_v0 :
+  forall (rc : bool) (k : nat) (sched : list ev),
+    log_ok V0 (trace (run V0 rc sched (init k))) = true.
+Proof. exact monitor_holds_v0. Qed.
+Print Assumptions C05_mem_monitor_holds_v0.
+
+(* v0, on the application's processing log alone: all rechecks of a block are executed before
+   any new-transaction check that follows the block's Commit. *)
+Theorem C05_mem_rechecks_precede_new :
+  forall (rc : bool) (k : nat) (sched : list ev),
+    applog_ok (app_log (run V0 rc sched (init k))) = true.
+Proof. exact rechecks_precede_new. Qed.
+Print Assumptions C05_mem_rechecks_precede_new.
+
+(* v1 as it is: the clause fails (MemProps.v: C05_mem_v1_refuted_a/_b/_b_flush_gap); every
+   failure on every schedule lies in the class of known finding 13 (F13). *)
+Theorem C05_mem_v1_except_known :
+  forall (rc : bool) (k : nat) (sched : list ev),
+    log_ok_except_known V1 (trace (run V1 rc sched (init k))) = true.
+Proof. exact monitor_v1_except_known. Qed.
+Print Assumptions C05_mem_v1_except_known.
+
+End MemPart.
+(* non-vacuity examples and the v1 refutations: C05/MemProps.v (compiled with this file) *)
+From TM Require C05.MemProps.
